@@ -13,9 +13,9 @@ Open Scope Z_scope.
 
 Definition define_fn := obj -> key -> desc -> bool -> obj * dres.
 (* otto's clamps / the ES5 clamps around one and the same [[DefineOwnProperty]] *)
-Definition with_otto_clamps (df : define_fn) (rh : bool) : dialect := mkDia df otto_rel otto_cnt otto_indexof otto_lastindexof rh.
-Definition with_es5_clamps (df : define_fn) (rh : bool) : dialect :=
-  mkDia df (dia_rel es5) (dia_cnt es5) (dia_indexof es5) (dia_lastindexof es5) rh.
+Definition with_otto_clamps (df : define_fn) : dialect := mkDia df otto_rel otto_cnt otto_indexof otto_lastindexof.
+Definition with_es5_clamps (df : define_fn) : dialect :=
+  mkDia df (dia_rel es5) (dia_cnt es5) (dia_indexof es5) (dia_lastindexof es5).
 
 Lemma bind_ext : forall A B (m : M A) (f g : A -> M B),
   (forall a s, f a s = g a s) -> forall s, bind m f s = bind m g s.
@@ -52,9 +52,8 @@ Qed.
 
 Section Clamps.
 Variable df : define_fn.
-Variable rh : bool.
-Let D1 := with_otto_clamps df rh.
-Let D2 := with_es5_clamps df rh.
+Let D1 := with_otto_clamps df.
+Let D2 := with_es5_clamps df.
 
 Theorem slice_clamps : forall args s, m_slice D1 args s = m_slice D2 args s.
 Proof.
